@@ -1,6 +1,7 @@
 import Norad.Props.C06
 import Norad.Props.C06Source
 import Norad.Props.Small
+import Norad.Props.C06Histories
 #print axioms Layers.inv_init
 #print axioms Layers.inv_loaded
 #print axioms Layers.inv_step
@@ -33,4 +34,14 @@ import Norad.Props.Small
 #print axioms Layers.source_renameGlyph_refuses_iff
 #print axioms Layers.source_index_updates_match_model
 #print axioms Layers.model_frame_rules
+#print axioms Layers.source_insertGlyph_eq_model
+#print axioms Layers.insertGlyphBy_glyphs_differs
+#print axioms Layers.source_load_pathset_eq_model
 #print axioms Small.name_predicates_agree
+#print axioms Layers.insert_repairs_index
+#print axioms Layers.sync_insert_of_syncBut
+#print axioms Layers.insert_after_entry_resyncs
+#print axioms Layers.insert_after_entry_remove_resyncs
+#print axioms Layers.resynced_glyph_is_saved
+#print axioms Layers.loaded_pathSet_covers_listed
+#print axioms Layers.new_layer_after_load_avoids_listed
